@@ -1,4 +1,5 @@
 import MxlVerif.Model.C07
+import MxlVerif.Lemmas.C07Sort
 namespace Mxl.C07
 
 /-! ### facts about the language templates as they stand in the repository (re-checked every run) -/
@@ -9,5 +10,27 @@ theorem C07_templates_mention_key : ∀ L, L ≠ .jl → (templateOf L).assignsK
 /-- every template except Julia's assigns to the name it is given -/
 theorem C07_templates_assign_key (L : Lang) (h : L ≠ .jl) (k : Name) : (templateOf L).target k = k := by
   simp [Template.target, C07_templates_mention_key L h]
+
+/-- every assignment template writes the value (`{v}` occurs) -/
+theorem C07_templates_mention_value : ∀ L, (templateOf L).assignsVal = true := by
+  intro L; cases L <;> decide
+
+/-- Python / TypeScript / Rust destructure the state vector for every length, return an array literal,
+    and only Rust fixes the returned length in the header -/
+theorem C07_templates_unpack : ∀ L, L ≠ .jl → (templateOf L).unpack L = .bracket ∧ (templateOf L).retBracket = true := by
+  intro L h; cases L <;> first | (exact absurd rfl h) | decide
+
+theorem C07_templates_sized : ∀ L, (templateOf L).sizedRet = (L == .rs) := by
+  intro L; cases L <;> decide
+
+/-- F-C07-4 (negation witnesses on the generated table): Julia's assignment template binds the literal
+    name `k` whatever the key, and its unpack line is not Julia -/
+theorem C07_julia_assigns_literal_k : ∀ k, (templateOf .jl).target k = "k" := by
+  intro k
+  have h1 : (templateOf .jl).assignsKey = false := by decide
+  have h2 : (templateOf .jl).literalTarget = "k" := by decide
+  simp [Template.target, h1, h2]
+
+theorem C07_julia_unpack_invalid : (templateOf .jl).unpack .jl = .invalid := by decide
 
 end Mxl.C07
